@@ -3,7 +3,9 @@
 Three loops, three line kinds (each case is a short list of lines; every line builds fresh adversaries):
 
   heal <maxRetries> <decay a/b> <stub|real> <genScript> <foldScript>
-  swarm <maxRegen> <maxSteps> <threshold a/b>            (new RegenerativeSwarm; its counters persist)
+  swarm <maxRegen> <maxSteps> <threshold a/b> [<timeout>] (new RegenerativeSwarm; its counters persist; step_timeout token
+                                                          n 0 u s h M g = None / 0 / 1 us / 1 s / 1 h / timedelta.max / -1 s;
+                                                          `sset to <timeout>` assigns it later; step items t q Q are slow steps)
   supervise <factoryScript> <stepScripts s0|s1|…> <summarizerScript>
   tools <maxIter> <autoExec> <hasSchemas> <hasToolApi> <providerScript> <toolScript> <completeScript>
   retools <maxIter> <innerMaxIter> <callsPerRound>       (oracle-only search: every tool execution re-enters
@@ -17,11 +19,14 @@ compared bit for bit (both sides compute them in IEEE doubles).
 from __future__ import annotations
 
 import contextlib
+import datetime
 import io
 import itertools
 import re
 import zlib
+import random
 import struct
+import time
 
 from ..core import Prop, Violation, import_repo, show_bool, hexs
 
@@ -129,7 +134,7 @@ def hint_tok(h) -> str:
     return str(h)
 
 
-STEP_OUT = {"a": "aaa", "b": "bbb", "c": "ccc", "S": "SUCCESS", "F": "FiNiShEd", "o": "it is solved",
+STEP_OUT = {"a": "aaa", "q": "aaa", "b": "bbb", "c": "ccc", "S": "SUCCESS", "Q": "SUCCESS", "F": "FiNiShEd", "o": "it is solved",
             "C": "incomplete", "n": "SUCCES", "m": "DON E", "f": "finish", "v": "solve", "k": "complet e",
             "0": "", "_": "   ", "K": "z" * 3000 + " done", "E": "Step limit reached, task failed"}
 
@@ -196,18 +201,14 @@ class C18(Prop):
         self.EXC = _exc_classes()
         self.LIB_ERR = {"u": pb.ProviderUnavailableError, "q": pb.QuotaExhaustedError,
                         "t": pb.TranscriptionFailedError, "e": pb.NucleusError}
-        # nothing may stall: the nucleus module's `time` is replaced by a recorder (sleep returns at once)
-        import time as _time
-        prop = self
-        prop.sleeps = []
-
-        class _Time:
-            def __getattr__(self, k):
-                return getattr(_time, k)
-
-            def sleep(self, s):
-                prop.sleeps.append(s)
-        nu.time = _Time()
+        # nothing may stall and no outcome may depend on the machine's clock: every clock the three modules can reach by
+        # name (datetime.now / utcnow, time.time / monotonic / perf_counter (+ _ns), time.sleep: returns at once) is one
+        # deterministic clock that ticks 1 ms at every read; the slow step items of the swarm scripts move it by 10 s
+        from ..extract.eval_loops import TickClock, install_clock
+        self.clock = TickClock()
+        self.sleeps = self.clock.sleeps
+        for mod in (cl, rs, nu):
+            install_clock(mod, self.clock)
 
         class S(BaseModel):
             x: int
@@ -387,6 +388,33 @@ class C18(Prop):
             lines.append(self._gen_supervise(rng, mreg, ms))
         return lines
 
+    def _gen_timing(self, rng):
+        """timing family: `step_timeout` zero / tiny / 1 s / huge / negative / None, given at construction or assigned
+        later (also between two supervise calls on one swarm), against steps that take time by every clock"""
+        mreg, ms = rng.choice([0, 0, 1, 1, 2, 3]), rng.choice([0, 1, 1, 2, 2, 3, 4])
+        to = rng.choice("00uussshMgn")
+        thr = rng.choice(["9/10", "9/10", "1/2", "0", "2/3"])
+        if rng.random() < 0.5:
+            lines = [f"swarm {mreg} {ms} {thr} {to}"]
+        else:
+            lines = [f"swarm {mreg} {ms} {thr}"]
+            if rng.random() < 0.3:
+                lines.append("supervise w ut h")
+            lines.append(f"sset to {to}")
+        for i in range(rng.choice([1, 1, 2])):
+            if i > 0:
+                r = rng.random()
+                if r < 0.4:
+                    lines.append(f"sset to {rng.choice('0usn')}")
+                elif r < 0.6:
+                    ms = rng.choice([0, 1, 2, 3])
+                    lines.append(f"sset ms {ms}")
+            ss = ["".join(rng.choice("uuttttaqQSdx"[:11 + (rng.random() < 0.2)]) for _ in range(rng.randint(1, ms + 2)))
+                  for _ in range(rng.randint(1, mreg + 2))]
+            lines.append(f"supervise {rng.choice(['w', 'w', 'w', 'wr', 'S', 'wS'])} {'|'.join(ss)} "
+                         f"{rng.choice(['h', 'h', 'e', 'D', 'he'])}")
+        return lines
+
     def _gen_tools(self, rng, op="tools"):
         mi = self._lim(rng, [10])
         named = rng.random() >= 0.06          # else: max_iterations is not named (default 10)
@@ -425,7 +453,11 @@ class C18(Prop):
         return lines
 
     def generate(self, rng, tier, n):
+        import os
+        trng = random.Random(f"timing-{os.environ.get('VERIF_SEED', '0')}-{tier}")     # own stream: older families do not shift
         for i in range(n):
+            if i % 25 == 19:                      # an EXTRA case (no index of the main stream is consumed)
+                yield {"lines": self._gen_timing(trng), "note": "random timing (step_timeout x slow steps)"}
             if i % 40 == 39:                      # malformed stream: unknown ops / wrong arity
                 yield {"lines": [rng.choice(["frob 1 2", "heal 3", "supervise w", "tools 1 1 1", "swarm 1", ""])
                                  or "nop", self._gen_heal(rng)], "note": "malformed"}
@@ -533,7 +565,19 @@ class C18(Prop):
                 for hs in "12":
                     live.append({"lines": ["nucleus", f"ntools {mi0} 1 {hs} 1 1 o r", f"ntools {mi1} 1 {hs} 1 1 ox r",
                                            "nset log new", f"ntools {mi0} 1 {hs} 1 10 o r"], "note": "exhaustive live nucleus"})
+        timing = []
+        k = 0
+        for mreg in (0, 1):
+            for ms in (1, 2):
+                for to in "0ushgM":
+                    for L in (1, 2):
+                        for ss in itertools.product("utQ", repeat=L):
+                            k += 1
+                            head = ([f"swarm {mreg} {ms} 9/10 {to}"] if k % 2 else [f"swarm {mreg} {ms} 9/10", f"sset to {to}"])
+                            timing.append({"lines": head + [f"supervise w {''.join(ss)} h"], "note": "exhaustive timing"})
         return [
+            {"name": "timing: step_timeout {0, 1 us, 1 s, 1 h, -1 s, timedelta.max} at construction / assigned later x maxRegen "
+                     "0..1 x maxSteps 1..2 x step scripts over {quick, slow, slow marker} up to length 2", "cases": timing},
             {"name": "live objects: a limit re-assigned between two calls on one ChaperoneLoop (constructed 0..3, "
                      "re-assigned -1..3, validator valid at attempt 0..4), one RegenerativeSwarm (budgets 0..2 / 0..3 "
                      "re-assigned), one Nucleus (per-call budgets 0..2, stub and real Mitochondria)", "cases": live},
@@ -731,7 +775,13 @@ class C18(Prop):
                          show_bool(res.ubiquitin_tagged), atts, f"calls={cs}"]), info
 
     # --- implementation: swarm -----------------------------------------------------------------------------------
-    def _new_swarm(self, mreg, ms, thr):
+    # `step_timeout` tokens: None / zero / 1 us / 1 s (only the slow steps t q Q overrun it) / 1 h / the largest
+    # timedelta / a negative one
+    TO = {"n": None, "0": datetime.timedelta(0), "u": datetime.timedelta(microseconds=1),
+          "s": datetime.timedelta(seconds=1), "h": datetime.timedelta(hours=1), "M": datetime.timedelta.max,
+          "g": datetime.timedelta(seconds=-1)}
+
+    def _new_swarm(self, mreg, ms, thr, to="n"):
         box = {"adv": None, "fac_id": 0, "summ_id": 0, "stale": []}
 
         def make_fac(my_id):
@@ -755,7 +805,11 @@ class C18(Prop):
             kw["max_steps_per_worker"] = ms
         if mreg is not None:
             kw["max_regenerations"] = mreg
+        if to != "n" and "step_timeout" in getattr(self.rs.RegenerativeSwarm, "__dataclass_fields__", {}):
+            kw["step_timeout"] = self.TO[to]
         sw = self.rs.RegenerativeSwarm(worker_factory=make_fac(0), summarizer=make_summ(0), silent=not self.loud, **kw)
+        if to != "n" and "step_timeout" not in kw:
+            sw.step_timeout = self.TO[to]
         return sw, box
 
     def _sset(self, st, t):
@@ -771,6 +825,10 @@ class C18(Prop):
             st["cfg"] = (st["cfg"][0], intd(t[2]))
         elif t[1] == "thr":
             sw.entropy_threshold = float_of(t[2])
+        elif t[1] == "to":
+            if t[2] not in self.TO:
+                return "bad-op"
+            sw.step_timeout = self.TO[t[2]]
         elif t[1] == "factory" and t[2] == "new":
             box["fac_id"] += 1
             sw.worker_factory = box["make_fac"](box["fac_id"])
@@ -853,6 +911,9 @@ class C18(Prop):
                     rec["steps"].append(None)
                     rec["raised"] = True
                     raise prop.adv_exc("step")
+                if item in "tqQ":       # a slow step: 10 s by every clock the module can name, 2 ms by the machine's
+                    prop.clock.advance(10_000_000)
+                    time.sleep(0.002)
                 if item in STEP_OUT:
                     out = STEP_OUT[item]
                 else:
@@ -1395,8 +1456,8 @@ class C18(Prop):
                 o = "ok"
             elif len(t) == 6 and t[0] == "heal":
                 o, info = self._heal(t, st)
-            elif len(t) == 4 and t[0] == "swarm":
-                st["swarm"], st["box"] = self._new_swarm(lim(t[1]), lim(t[2]), flo(t[3]))
+            elif len(t) in (4, 5) and t[0] == "swarm" and (len(t) == 4 or t[4] in self.TO):
+                st["swarm"], st["box"] = self._new_swarm(lim(t[1]), lim(t[2]), flo(t[3]), t[4] if len(t) == 5 else "n")
                 # a limit that was not named: whatever the fresh object's public attribute says is in force
                 st["cfg"] = (st["swarm"].max_regenerations if lim(t[1]) is None else lim(t[1]),
                              st["swarm"].max_steps_per_worker if lim(t[2]) is None else lim(t[2]))
@@ -1419,7 +1480,7 @@ class C18(Prop):
                 o = self._hset(st, t)
             elif len(t) == 3 and t[0] == "hcall":
                 o, info = self._hcall(st, t)
-            elif len(t) == 3 and t[0] == "sset" and (t[1] in ("mreg", "ms", "thr") or t[2] == "new"):
+            elif len(t) == 3 and t[0] == "sset" and (t[1] in ("mreg", "ms", "thr", "to") or t[2] == "new"):
                 o = self._sset(st, t)
             elif len(t) == 4 and t[0] == "retools":
                 o, info = self._retools(t)
